@@ -384,11 +384,11 @@ func (w *World) Project() J {
 			stk[vc.Name] = J{"b": false, "p": 0, "j": false, "x": false}
 			continue
 		}
-		stk[vc.Name] = J{"b": v.IsBonded(), "p": w.K.Staking.GetLastValidatorPower(ctx, va), "j": v.Jailed, "x": true,
-			"tk": num(v.Tokens.Quo(sdk.DefaultPowerReduction))}
+		stk[vc.Name] = J{"b": v.IsBonded(), "p": w.K.Staking.GetLastValidatorPower(ctx, va) / w.Cfg.Scale(), "j": v.Jailed, "x": true,
+			"tk": num(v.Tokens.Quo(sdk.DefaultPowerReduction).QuoRaw(w.Cfg.Scale()))}
 	}
 	out["stk"] = stk
-	out["tot"] = num(w.K.Staking.GetLastTotalPower(ctx))
+	out["tot"] = num(w.K.Staking.GetLastTotalPower(ctx).QuoRaw(w.Cfg.Scale()))
 
 	bal := J{}
 	denoms := w.Cfg.Denoms
